@@ -124,3 +124,12 @@ Fixpoint insert_line (s : list Z) (l : list (list Z)) : list (list Z) :=
   | h :: t => if bytes_leb s h then s :: l else h :: insert_line s t
   end.
 Definition sort_lines (l : list (list Z)) : list (list Z) := fold_right insert_line [] l.
+
+(** variadic options: the report under the first option (none: the plain report); [None] = panic
+    when the first option is not an Opt *)
+Definition spec_opts (data : option lvalue) (depth maxItem : Z) (opts : list (option sopt)) : option (list Z) :=
+  match hd_error opts with
+  | None => Some (spec_text data depth maxItem no_opt)
+  | Some (Some o) => Some (spec_text data depth maxItem o)
+  | Some None => None
+  end.
